@@ -561,7 +561,7 @@ def alias_twins(res: Result, shard_i: int, shard_n: int) -> None:
     0.0 / -0.0.  Anything that remembers a conversion by equality hands the second one the first one's bytes."""
     import copy as _copy
 
-    from kio.serial import entity_writer
+    from kio.serial import entity_reader, entity_writer
 
     from .codec import _has_timestamp
 
@@ -606,6 +606,22 @@ def alias_twins(res: Result, shard_i: int, shard_n: int) -> None:
             if ra == rb:
                 continue
             res.count("alias_twin_pairs")
+            # ... and the same through the cached reader: first/twin/first/twin, judged by what the result re-encodes to under the
+            # *reference* codec (== cannot tell -0.0 from 0.0)
+            rd = entity_reader(cls)
+            for step, (ref, name) in enumerate(((ra, "first"), (rb, "twin"), (ra, "first"), (rb, "twin"))):
+                try:
+                    got = rd(io.BytesIO(ref))
+                    back = refcodec.encode_bytes(spec, describe.instance_to_tree(spec, got))
+                    bad = None if back == ref else f"gave a value that stands for {back[:48].hex()}.. instead of {ref[:48].hex()}.. (first diff at {refcodec.first_diff(back, ref)})"
+                except Exception as exc:  # noqa: BLE001
+                    bad = f"raised {exc!r}"
+                res.count("alias_twin_decodes")
+                if bad:
+                    res.violation(f"alias-twin-decode:{'timestamp-fold' if has_ts else 'signed-zero'}",
+                                  f"{walk.class_path(cls)}: decoding the {name} of two encodings whose values are ==-equal but different (step {step} of first/twin/first/twin) {bad}",
+                                  {"class": walk.class_path(cls), "first": a, "twin": b, "step": step})
+                    break
             w = entity_writer(cls)
             for step, (inst, ref, name) in enumerate(((ia, ra, "first"), (ib, rb, "twin"), (ia, ra, "first"), (ib, rb, "twin"))):
                 buf = io.BytesIO()
